@@ -355,4 +355,8 @@ Proof.
   - f_equal. apply bsum_ext; intros i Hi. now rewrite Hl.
   - intros i Hi. rewrite Hl by auto. lia.
 Qed.
+(* with rounding (default e): the result is the truncate routine applied to the tensor of anova_func_denote *)
+Lemma anova_func_rounded X y n a b lamb solve (tr : list (core T) -> list (core T)) :
+  anova_func K X y n a b lamb solve split (Some tr) = tr (anova_func K X y n a b lamb solve split None).
+Proof. unfold anova_func. now destruct (coeffs K X y n a b lamb solve). Qed.
 End FuncCoeffs.
